@@ -1,9 +1,14 @@
 package props
 
 import (
+	"archive/zip"
+	"bytes"
 	"errors"
 	"fmt"
+	"hash/crc32"
 	"math"
+	"os"
+	"path/filepath"
 
 	"github.com/advancedclimatesystems/gonnx"
 	"github.com/advancedclimatesystems/gonnx/onnx"
@@ -47,7 +52,7 @@ func init() {
 		Run:            c18Run,
 		Floor:          func(tier string) int { return 10000 },
 		MemCapMiB:      6144,
-		Rule:           "byte strings handed to NewModelFromBytes: truncation of mlp.onnx, gru.onnx and scaler.onnx at every offset (complete), then generated cases: single- and multi-byte flips, inserted/deleted ranges, varint inflation of length prefixes, random strings of length 0..512, over the sample models (ndm.onnx sampled) and freshly generated models; structured mutations through the protobuf API: every field of an initializer perturbed (dims negative / 0 / huge / wrong count, every data_type code, raw_data shortened/extended, typed fields populated inconsistently), value-infos without type / shape / dims, missing graph, nil entries. Oracle: (model, nil) or (nil, error); a panic, a process-fatal error (seen by the supervisor through the write-ahead case log), a hang or a nil model without error is a violation. Opset lists over versions {-1,0,1,7,12,13,14,21,2^31,MaxInt64} and several domains: loads iff the highest version is 13, else ErrUnsupportedOpsetVersion. Foreign operator types: Run fails with ErrUnsupportedOperator, no outputs, and the proxy shows no apply for that node or any later one. Non-trivial = every mutated byte string / list (distinct by content hash).",
+		Rule:           "byte strings handed to NewModelFromBytes: truncation of mlp.onnx, gru.onnx and scaler.onnx at every offset (complete), then generated cases: single- and multi-byte flips, inserted/deleted ranges, varint inflation of length prefixes, random strings of length 0..512, over the sample models (ndm.onnx sampled) and freshly generated models; structured mutations through the protobuf API: every field of an initializer perturbed (dims negative / 0 / huge / wrong count, every data_type code, raw_data shortened/extended, typed fields populated inconsistently), value-infos without type / shape / dims, missing graph, nil entries. Every 16th byte string is also loaded through NewModelFromFile and NewModelFromZipFile, which must agree with NewModelFromBytes. Oracle: (model, nil) or (nil, error); a panic, a process-fatal error (seen by the supervisor through the write-ahead case log), a hang or a nil model without error is a violation. Opset lists over versions {-1,0,1,7,12,13,14,21,2^31,MaxInt64} and several domains: loads iff the highest version is 13, else ErrUnsupportedOpsetVersion. Foreign operator types: Run fails with ErrUnsupportedOperator, no outputs, and the proxy shows no apply for that node or any later one. Non-trivial = every mutated byte string / list (distinct by content hash).",
 		RaceInThorough: true,
 		Technique:      "runtime monitoring: robustness oracle over hostile byte strings with recover() in-process and child-process isolation (write-ahead case log, memory cap, watchdog) for process-fatal failures; errors.Is classification; proxy trace check for foreign operators",
 		Assumptions:    []string{"'highest imported opset version' is taken over all imports of the model, whatever their domain (as the statement says)"},
@@ -105,6 +110,9 @@ func c18Load(c *Ctx, b []byte, mayLoad bool) (loaded *gonnx.Model) {
 		return nil, err
 	})
 	c.Eval(1)
+	if c.Idx%16 == 5 {
+		c18OtherLoaders(c, b, o)
+	}
 	switch {
 	case o.Kind == mon.Panic:
 		c.Violation("load:panic", "NewModelFromBytes panicked on %d bytes: %s", len(b), o.Describe())
@@ -414,6 +422,96 @@ func c18Opsets(c *Ctx) {
 		get, err := gonnx.ResolveOperatorGetter(v)
 		if (v == 13) != (err == nil) || (err == nil && get == nil) || (err != nil && !errors.Is(err, ops.ErrUnsupportedOpsetVersion)) {
 			c.Violation("opset:resolver", "ResolveOperatorGetter(%d) = %v, %v", v, get != nil, err)
+		}
+	}
+}
+
+// c18OtherLoaders: NewModelFromFile and NewModelFromZipFile must behave like
+// NewModelFromBytes on the same content (model or error, never a panic).
+func c18OtherLoaders(c *Ctx, b []byte, ref mon.Outcome) {
+	dir := os.Getenv("VERIF_DIR")
+	if dir == "" {
+		dir = "/verif"
+	}
+	path := filepath.Join(dir, ".work", fmt.Sprintf("c18-%d-%d.onnx", os.Getpid(), c.Idx))
+	if err := os.WriteFile(path, b, 0o644); err != nil {
+		return
+	}
+	defer os.Remove(path)
+	check := func(what string, fn func() (*gonnx.Model, error)) {
+		var m *gonnx.Model
+		o := mon.Capture(nil, func() ([]tensor.Tensor, error) {
+			var err error
+			m, err = fn()
+			return nil, err
+		})
+		c.Eval(1)
+		c.Count("loader:"+what, 1)
+		switch {
+		case o.Kind == mon.Panic:
+			c.Violation("load:panic", "%s panicked on %d bytes: %s", what, len(b), o.Describe())
+		case (o.Kind == mon.Error) != (ref.Kind == mon.Error) && ref.Kind != mon.Panic:
+			c.Violation("load:loaders-disagree", "%s gives %v, NewModelFromBytes gives %v for the same %d bytes", what, o.Err, ref.Err, len(b))
+		case o.Kind != mon.Error && m == nil:
+			c.Violation("load:nil-model-without-error", "%s: nil model and nil error", what)
+		}
+	}
+	check("NewModelFromFile", func() (*gonnx.Model, error) { return gonnx.NewModelFromFile(path) })
+	var buf bytes.Buffer
+	zw := zip.NewWriter(&buf)
+	w, err := zw.Create("model.onnx")
+	if err != nil {
+		return
+	}
+	_, _ = w.Write(b)
+	if zw.Close() != nil {
+		return
+	}
+	zr, err := zip.NewReader(bytes.NewReader(buf.Bytes()), int64(buf.Len()))
+	if err != nil || len(zr.File) != 1 {
+		return
+	}
+	check("NewModelFromZipFile", func() (*gonnx.Model, error) { return gonnx.NewModelFromZipFile(zr.File[0]) })
+	// a zip entry whose header lies about the uncompressed size (attacker-controlled field)
+	for _, declared := range []uint64{1 << 50, 1 << 62, math.MaxUint64, 0, uint64(len(b)) + 1} {
+		var lb bytes.Buffer
+		lw := zip.NewWriter(&lb)
+		fw, err := lw.CreateRaw(&zip.FileHeader{Name: "model.onnx", Method: zip.Store, CompressedSize64: uint64(len(b)), UncompressedSize64: declared, CRC32: crc32.ChecksumIEEE(b)})
+		if err != nil {
+			continue
+		}
+		_, _ = fw.Write(b)
+		if lw.Close() != nil {
+			continue
+		}
+		lr, err := zip.NewReader(bytes.NewReader(lb.Bytes()), int64(lb.Len()))
+		if err != nil || len(lr.File) != 1 {
+			continue
+		}
+		var m *gonnx.Model
+		o := mon.Capture(nil, func() ([]tensor.Tensor, error) {
+			var err error
+			m, err = gonnx.NewModelFromZipFile(lr.File[0])
+			return nil, err
+		})
+		c.Eval(1)
+		c.Count("loader:NewModelFromZipFile(lying size header)", 1)
+		if o.Kind == mon.Panic {
+			c.Violation("load:panic", "NewModelFromZipFile panicked on an entry that declares %d uncompressed bytes: %s", declared, o.Describe())
+		} else if o.Kind != mon.Error && m == nil {
+			c.Violation("load:nil-model-without-error", "NewModelFromZipFile: nil model and nil error")
+		}
+	}
+	if c.Idx%160 == 5 {
+		o := mon.Capture(nil, func() ([]tensor.Tensor, error) {
+			m, err := gonnx.NewModelFromFile(path + ".does-not-exist")
+			if err == nil || m != nil {
+				return nil, fmt.Errorf("verif: a missing file loaded")
+			}
+			return nil, nil
+		})
+		if o.Kind != mon.Value {
+			c.Violation("load:missing-file", "NewModelFromFile on a missing file: %s", o.Describe())
 		}
 	}
 }
